@@ -8,6 +8,7 @@
 //! trace = reset, {ev: subcall|subret|unsubcall|unsubret|emitcall|emitret|cbstart|cbend|acsub|..., t: logical thread, ...}*, quiesce
 use crate::term::*;
 use another_rxrust::prelude::*;
+use another_rxrust::schedulers::scheduler::IScheduler;
 use arx_vstd::rt::{self, Config, Outcome, RunResult, Strategy};
 use serde::{Deserialize, Serialize};
 use serde_json::json;
@@ -29,6 +30,9 @@ pub struct Step {
   pub v: i64,
   #[serde(default)]
   pub ms: u64,
+  /// task id of a `post` step (scheduler cases); tasks listed in CCase::aborting call abort() from inside
+  #[serde(default)]
+  pub task: i64,
   /// producer label of an `emit` step (default: the subject index); items are 10*p + i
   #[serde(default)]
   pub p: i64,
@@ -47,16 +51,48 @@ pub struct CCase {
   /// catalogue tags used by the trace specifications (which clauses apply)
   #[serde(default)]
   pub tags: Vec<String>,
+  /// "" (pipeline case) | "queue" (new-thread scheduler) | "default_queue" (default scheduler)
+  #[serde(default)]
+  pub kind: String,
+  #[serde(default)]
+  pub aborting: Vec<i64>,
+  #[serde(default)]
+  pub posting: Vec<i64>,
 }
 
 pub fn ev(v: serde_json::Value) {
   rt::emit(v.to_string());
 }
 
+#[derive(Clone)]
+enum Sched {
+  None,
+  NewThread(schedulers::NewThreadScheduler<'static>),
+  Default(schedulers::DefaultScheduler),
+}
+impl Sched {
+  fn post<F: Fn() + Clone + Send + Sync + 'static>(&self, f: F) {
+    match self {
+      Sched::NewThread(s) => s.post(f),
+      Sched::Default(s) => s.post(f),
+      Sched::None => {}
+    }
+  }
+  fn abort(&self) {
+    match self {
+      Sched::NewThread(s) => s.abort(),
+      Sched::Default(s) => s.abort(),
+      Sched::None => {}
+    }
+  }
+}
 struct Shared {
   w: W,
   root: O,
   handles: Mutex<BTreeMap<i64, Subscription<'static>>>,
+  sched: Sched,
+  aborting: Vec<i64>,
+  posting: Vec<i64>,
 }
 
 fn do_step(sh: &Arc<Shared>, st: &Step) {
@@ -109,6 +145,35 @@ fn do_step(sh: &Arc<Shared>, st: &Step) {
       ev(json!({"ev": "emitret", "src": src, "k": st.k, "v": st.v}));
     }
     "sleep" => arx_vstd::thread::sleep(Duration::from_millis(st.ms)),
+    "post" => {
+      let task = st.task;
+      ev(json!({"ev": "postcall", "task": task}));
+      let (sc, ab, po) = (sh.sched.clone(), sh.aborting.contains(&task), sh.posting.contains(&task));
+      sh.sched.post(move || {
+        ev(json!({"ev": "start", "task": task}));
+        if ab {
+          ev(json!({"ev": "abortcall", "task": 0}));
+          sc.abort();
+          ev(json!({"ev": "abortret", "task": 0}));
+        }
+        if po {
+          let t2 = task + 100;
+          ev(json!({"ev": "postcall", "task": t2}));
+          sc.post(move || {
+            ev(json!({"ev": "start", "task": t2}));
+            ev(json!({"ev": "end", "task": t2}));
+          });
+          ev(json!({"ev": "postret", "task": t2}));
+        }
+        ev(json!({"ev": "end", "task": task}));
+      });
+      ev(json!({"ev": "postret", "task": task}));
+    }
+    "abort" => {
+      ev(json!({"ev": "abortcall", "task": 0}));
+      sh.sched.abort();
+      ev(json!({"ev": "abortret", "task": 0}));
+    }
     other => panic!("unknown step {other}"),
   }
 }
@@ -121,7 +186,12 @@ pub fn run_ccase(case: &CCase, strategy: Strategy, log_locks: bool, budget: u64)
     let sbjs: Vec<Sbj> = case.sbj.iter().map(|k| Sbj::new(k)).collect();
     w.lock().unwrap().sbj = sbjs;
     let root = build(&case.root, &w);
-    let sh = Arc::new(Shared { w: w.clone(), root, handles: Mutex::new(BTreeMap::new()) });
+    let sched = match case.kind.as_str() {
+      "queue" => Sched::NewThread(schedulers::NewThreadScheduler::new()),
+      "default_queue" => Sched::Default(schedulers::DefaultScheduler::new()),
+      _ => Sched::None,
+    };
+    let sh = Arc::new(Shared { w: w.clone(), root, handles: Mutex::new(BTreeMap::new()), sched, aborting: case.aborting.clone(), posting: case.posting.clone() });
     for st in &case.pre {
       do_step(&sh, st);
     }
@@ -148,7 +218,7 @@ pub fn run_ccase(case: &CCase, strategy: Strategy, log_locks: bool, budget: u64)
 pub fn trace_of(id: u64, case: &CCase, r: &RunResult) -> (Vec<String>, String) {
   let mut lines = vec![];
   let mut key = String::new();
-  lines.push(json!({"ev": "reset", "id": id, "name": case.name, "root": case.root, "sbj": case.sbj, "tags": case.tags, "nthreads": case.threads.len()}).to_string());
+  lines.push(json!({"ev": "reset", "id": id, "name": case.name, "root": case.root, "sbj": case.sbj, "tags": case.tags, "nthreads": case.threads.len(), "kind": case.kind}).to_string());
   for e in r.events.iter() {
     if !e.what.starts_with('{') {
       continue; // spawn / join notes of the runtime
@@ -175,7 +245,7 @@ pub fn trace_of(id: u64, case: &CCase, r: &RunResult) -> (Vec<String>, String) {
     Outcome::StepBudget => ("budget", vec![]),
   };
   let fin = if !r.panics.is_empty() { "panic" } else { fin };
-  let q = json!({"ev": "quiesce", "id": id, "fin": fin, "blocked": blocked, "panics": r.panics.iter().map(|(t, p)| format!("t{t}: {p}")).collect::<Vec<_>>(), "t": 0, "clk": r.clock / 1_000_000, "u": 0, "src": 0, "v": 0, "k": "", "task": 0});
+  let q = json!({"ev": "quiesce", "id": id, "fin": fin, "blocked": blocked, "nblocked": blocked.len(), "nparked": blocked.iter().filter(|b| b.contains("parked on condvar")).count(), "panics": r.panics.iter().map(|(t, p)| format!("t{t}: {p}")).collect::<Vec<_>>(), "t": 0, "clk": r.clock / 1_000_000, "u": 0, "src": 0, "v": 0, "k": "", "task": 0});
   key.push_str(&format!("{fin}"));
   lines.push(q.to_string());
   (lines, key)
